@@ -56,6 +56,14 @@ InitJoin ==
             \/ x = Case("joinkv", E, tu[1], tu[2], 0, 0, a, ks)
             \/ x = Case("splitkvx_joinkv", E, tu[1], tu[2], 0, 0, a, ks)
 
+\* ---- string literals in the DSL text itself (one program per case: a literal the lexer rejects fails the program) ----
+InitLiteral ==
+  \/ \E s \in Seqs({"a", "e2", "c3", "g4", "sp"}, 0, IF Big THEN 3 ELSE 2) : x = Case("literal", s, E, E, 0, 0, E, E)
+  \/ \E ch \in DOMAIN Named : x = Case("escape", <<ch>>, <<"named">>, <<Named[ch]>>, 0, 0, E, E)
+  \/ \E ch \in {"a", "A", "tab", "sp"}, k \in {"octal", "hex"} : x = Case("escape", <<ch>>, <<k>>, E, 0, 0, E, E)   \* (ASCII only: whether \351
+  \/ \E ch \in {"a", "e2", "E2", "c3", "tab"} : x = Case("escape", <<ch>>, <<"u4">>, E, 0, 0, E, E)                \*  is a byte or U+00E9 is not stated)
+  \/ \E ch \in {"a", "e2", "c3", "g4"} : x = Case("escape", <<ch>>, <<"U8">>, E, 0, 0, E, E)
+
 \* ---- integer formatting ----------------------------------------------------------------------------------------
 FCase(f, n, F, w, lm, v) == [f |-> f, n |-> n, F |-> F, w |-> w, lm |-> lm, v |-> v]
 Ns == {-17, -1, 0, 1, 17, 255} \cup (IF Big THEN {5, -255, 65535, 1234567, -1234567, 2147483647} ELSE {})
@@ -72,7 +80,7 @@ InitFmt ==
 
 Init == CASE Fam = "unary" -> InitUnary [] Fam = "index" -> InitIndex [] Fam = "pad" -> InitPad
           [] Fam = "replace" -> InitReplace [] Fam = "find" -> InitFind [] Fam = "split" -> InitSplit
-          [] Fam = "join" -> InitJoin [] Fam = "fmt" -> InitFmt
+          [] Fam = "join" -> InitJoin [] Fam = "fmt" -> InitFmt [] Fam = "literal" -> InitLiteral
 Next == UNCHANGED x
 Emit == PrintT(ToJson(x))
 =============================================================================
